@@ -384,6 +384,29 @@ def gen_cases(rng, tier, scale):
     for (fr, lp, rec, preset) in ([(1, 1, 0, 8), (9, 4, 1, 8), (17, 1, 1, 4)] if quick else
                                   [(1, 1, 0, 8), (9, 4, 1, 8), (17, 1, 1, 4), (2, 4, 0, 4), (33, 4, 1, 8), (40, 1, 0, 8)]):
         cases.append(("enc", POINTS[0], enc_case(0, lp=lp, recon=rec, preset=preset, frames=fr)))
+    # configuration diversity: what init allocates (and so what teardown must release) depends on superblock size,
+    # bit depth, pipeline width, tiles, overlays, film grain, rate control, look-ahead ... (one after-init teardown each;
+    # a few also after a short drained encode)
+    div = [dict(width=256, height=256, preset=4),  # 128x128 superblocks
+           dict(width=480, height=360, preset=3), dict(width=176, height=144, preset=0),
+           dict(extra={"bitdepth": 10}), dict(extra={"bitdepth": 10, "cfg.is_16bit_pipeline": 1}),
+           dict(extra={"cfg.is_16bit_pipeline": 1}), dict(width=256, height=128, extra={"cfg.tile_columns": 1, "cfg.tile_rows": 1}),
+           dict(extra={"cfg.enable_overlays": 1}), dict(extra={"cfg.film_grain_denoise_strength": 10}),
+           dict(extra={"cfg.rate_control_mode": 1, "cfg.target_bit_rate": 300000}),
+           dict(extra={"cfg.rate_control_mode": 2, "cfg.target_bit_rate": 300000, "cfg.look_ahead_distance": 33}),
+           dict(width=192, height=128, extra={"cfg.superres_mode": 1, "cfg.superres_denom": 12, "cfg.superres_kf_denom": 12}),
+           dict(width=128, height=128, extra={"cfg.screen_content_mode": 1, "cfg.palette_level": 1, "cfg.intrabc_mode": 1}),
+           dict(extra={"cfg.hierarchical_levels": 5}), dict(extra={"cfg.hierarchical_levels": 0, "cfg.look_ahead_distance": 0})]
+    for i, dv in enumerate(div if not quick else div[:1] + rng.sample(div[1:], 7)):
+        c = enc_case(4, lp=rng.choice([1, 4]), preset=dv.get("preset", rng.choice([8, 6])))
+        c.update(width=dv.get("width", 64), height=dv.get("height", 64))
+        c.update(dv.get("extra", {}))
+        cases.append(("enc", POINTS[4], c))
+    for dv in (div[:1] if quick else div[:1] + div[3:9]):
+        c = enc_case(0, lp=4, recon=1, preset=dv.get("preset", 8), frames=2)
+        c.update(width=dv.get("width", 64), height=dv.get("height", 64))
+        c.update(dv.get("extra", {}))
+        cases.append(("enc", POINTS[0], c))
     # mid-stream: k sends, j in {0, all available}
     n_mid = int((36 if quick else 1300) * scale)
     combos = [(k, j, lp, rec, pr) for k in range(0, 41) for j in (0, 1) for lp in (1, 4) for rec in (0, 1) for pr in (8, 4)]
